@@ -342,13 +342,17 @@ impl Checker {
 
     /// Write evidence, print the summary, return the process exit code.
     pub fn finish(self) -> i32 {
-        let ev = self.evidence_json();
-        let dir = self.ctx.root.join("evidence");
-        let _ = std::fs::create_dir_all(&dir);
-        let path = dir.join(format!("{}.json", self.ctx.id));
-        if let Err(e) = std::fs::write(&path, serde_json::to_string_pretty(&ev).unwrap() + "\n") {
-            eprintln!("INFRA: cannot write evidence {}: {e}", path.display());
-            return 2;
+        // a --replay run (strict) re-evaluates one stored case: it must not
+        // replace the evidence of the last full run
+        if !self.strict {
+            let ev = self.evidence_json();
+            let dir = self.ctx.root.join("evidence");
+            let _ = std::fs::create_dir_all(&dir);
+            let path = dir.join(format!("{}.json", self.ctx.id));
+            if let Err(e) = std::fs::write(&path, serde_json::to_string_pretty(&ev).unwrap() + "\n") {
+                eprintln!("INFRA: cannot write evidence {}: {e}", path.display());
+                return 2;
+            }
         }
         println!(
             "SUMMARY property={} tier={} seed={} evaluations={} distinct_nontrivial={} excluded_known={} violations={} wall_s={:.1}",
